@@ -5,6 +5,7 @@ import (
 	"io"
 	"log"
 	"os"
+	"strings"
 	"testing"
 
 	"verifh/fw"
@@ -34,6 +35,10 @@ func TestC14VT(t *testing.T) {
 			r := fw.NewRand(run.Seed, "C14", "place", k)
 			base1, e1 := script.Play(sc, 1000000, 2000000)
 			base2, e2 := script.Play(sc, 1000000, 2000000)
+			if strings.HasPrefix(e1, "overlap:") {
+				run.Violation("C14/tcp/segment-overlapping-the-window-refused", fmt.Sprintf("scripted exchange %d: %s", k, e1), map[string]interface{}{"script": sc, "own_iss": 1000000, "peer_iss": 2000000, "transcript": base1})
+				continue
+			}
 			if e1 != "" || e2 != "" || fmt.Sprint(base1) != fmt.Sprint(base2) {
 				// the baseline itself is not reproducible (goroutine scheduling): nothing to compare against
 				run.Inconclusive("baseline-not-reproducible")
